@@ -155,7 +155,7 @@ class Gen:
         parts = []
         for _ in range(r.choice([0, 1, 1, 2, 3, 6])):
             parts.append(r.choice(["a", "B", " ", "it''s", "''", "#12", "(", ")", ";", ",", "/*", "*/", "$", "*",
-                                   "\\\\", "\\S\\A", "\\X\\E9", "\\X2\\00E9\\X0\\", "\\X4\\0001F600\\X0\\", "=", ".T.",
+                                   "\\\\", "\\S\\A", "\\S\\'", "\\X\\E9", "\\X2\\00E9\\X0\\", "\\X4\\0001F600\\X0\\", "=", ".T.",
                                    "ENDSEC;", "'' ''", "x y", "\"", "!", "&SCOPE", "1.E5"]))
         raw = "".join(parts)
         return ("str", raw), "'" + raw + "'"
